@@ -215,6 +215,8 @@ fn as_stream(sc: &CodecSc, imp: Imp) -> StreamScenario {
         mode: sc.mode,
         verify_version: false,
         explicit_gate: true,
+        flushes: vec![],
+        buffered: false,
         inbound: sc.stream.clone(),
         reads: sc.segs.iter().map(|n| ReadEv::Data((*n).max(1))).collect(),
         writes: vec![],
